@@ -142,7 +142,7 @@ theorem C03_invariant (v0 : Option Val) (a : Bool) {s : Sys} (h : ReachG (Sys.in
   miginv_reachG (miginv_init v0 a) h
 
 /-- **C03 (partial: hypothesis `GoodStep` = no F03b commit)**: every step of every
-execution is a refinement step of the atomic register `logical`: the execution of a client
+execution (faults `syncFault`/`scanFault` included) is a refinement step of the atomic register `logical`: the execution of a client
 command — which lies between its invocation and its response — answers and updates the register
 exactly as the sequential specification `Cmd.apply`; no other step (scan batches, pulls, pushes,
 fast and slow path, handshake, commit, redirects) changes the register.  Hence the acknowledged
@@ -183,6 +183,54 @@ theorem good_runsG : (runLabelsG i5 goodTrace).isSome = true := by decide +kerne
 
 example : ∃ s, runLabelsG i5 goodTrace = some s ∧ Quiescent s ∧ s.src = none ∧ s.dst = none := by
   refine ⟨_, (Option.some_get good_runsG).symm, ?_, by decide +kernel, by decide +kernel⟩
+  refine ⟨by decide +kernel, by decide +kernel, by decide +kernel, by decide +kernel, by decide +kernel, by decide +kernel⟩
+
+/-! ## faults while the source serves a UMSYNC
+
+`Label.syncFault` / `Label.scanFault`: a Redis connection of the migrating task fails at the next
+command of the UMSYNC fast path (PTTL/DUMP pipeline, final DEL) or of the current scan-loop batch
+(a slow-path batch answers its queued UMSYNC with an error).  They are ordinary labels of
+`step?`, so `C03_register_partial`, `C03_register_trace_partial` and the end-state theorems above
+already quantify over executions with arbitrarily many such faults: the register semantics holds
+with them.  What the importing proxy must do with the error reply is pinned here. -/
+
+/-- **a failed push never lets the command through**: when the source answered UMSYNC with an
+error, processing that reply releases the key lock, gives the client op an error reply and
+executes nothing — both nodes are untouched and the op can only be returned (`done`) -/
+theorem C03_failed_push_not_executed {s s' : Sys} {oid : OpId}
+    (hk : s.crit = some { id := oid, pc := .uSyncGot .err }) (hs : step? s (.tau .syncDone) = some s') :
+    s'.src = s.src ∧ s'.dst = s.dst ∧ s'.crit = none ∧
+    ∀ o ∈ s'.ops, o.id = oid → o.pc = .done (.err 2) := by
+  simp only [step?, stepTau, hk] at hs
+  cases hs
+  refine ⟨rfl, rfl, rfl, ?_⟩
+  intro o ho hid
+  rw [mem_setPc] at ho
+  obtain ⟨a, _, rfl⟩ := ho
+  by_cases h : a.id = oid
+  · simp [h]
+  · simp only [h, if_false] at hid
+
+/-- a client command is executed at a node only by an op in `direct`/`pCmd`; an op whose push failed
+is in `done` and stays there: the only step it can still take is `ret` -/
+theorem C03_done_is_terminal {s s' : Sys} {o : Op} {n : Node} {c : BCmd} {r r0 : Rep}
+    (hpc : o.pc = .done r0) : exeOp s o n c r ≠ some s' := by
+  unfold exeOp; simp [hpc]
+
+/-- non-vacuity: DEL at the destination, the fast path fails after its PTTL, the client gets an
+error, retries, the second UMSYNC moves the value and the delete sticks -/
+def faultTrace : List Label := handshake ++
+  [.inv 1 .D .del, .dlvSync false, .exe .crit .src .pttl (.int (-1)), .syncFault false,
+   .tau .syncDone, .ret 1 (.err 2),
+   .inv 2 .D .del, .dlvSync false, .exe .crit .src .pttl (.int (-1)), .exe .crit .src .dump (.val 5),
+   .exe .crit .dst (.restore 5) .ok, .exe .crit .src .del (.int 1), .tau .syncDone,
+   .exe (.op 2) .dst (.client .del) (.int 1), .ret 2 (.int 1),
+   .tau .scanFinish, .dlvFinalSwitch, .tau .srcFinalSwitchOk, .commit .D, .commit .S]
+
+theorem fault_runsG : (runLabelsG i5 faultTrace).isSome = true := by decide +kernel
+
+theorem fault_regression : ∃ s, runLabelsG i5 faultTrace = some s ∧ Quiescent s ∧ s.src = none ∧ s.dst = none := by
+  refine ⟨_, (Option.some_get fault_runsG).symm, ?_, by decide +kernel, by decide +kernel⟩
   refine ⟨by decide +kernel, by decide +kernel, by decide +kernel, by decide +kernel, by decide +kernel, by decide +kernel⟩
 
 /-- the F03a regression trace is a good run now: the delete sticks, the key is on neither node -/
